@@ -13,7 +13,7 @@ def make_case(cid, rnd):
     devs = []
     for i in range(ndev):
         kind = rnd.choice(["dio", "dio", "coe"])
-        devs.append(dict(kind=kind, in_bits=rnd.choice([8, 16, 32, 64]), out_bits=rnd.choice([8, 16, 32]), tag=i + 1))
+        devs.append(dict(kind=kind, in_bits=rnd.choice([8, 16, 32, 64, 128]), out_bits=rnd.choice([8, 16, 32, 96]), tag=i + 1))
     ntasks = rnd.randint(2, 4)
     tasks = []
     used_groups, used_sdo = set(), set()
@@ -44,7 +44,7 @@ def make_case(cid, rnd):
             tasks.append(dict(op="sdo_write", device=d, index=0x2001, sub=0, value=[rnd.randint(0, 200), rnd.randint(0, 255)], count=rnd.randint(2, 3)))
     enough = next(f for f in (1, 2, 4, 8, 16) if f >= len(tasks))
     frames = rnd.choice([enough, enough, 8, 16, 2])
-    return dict(id=cid, devices=devs, groups=groups, frames=frames, frame_data=rnd.choice([1100, 1100, 128]), tasks=tasks,
+    return dict(id=cid, devices=devs, groups=groups, frames=frames, frame_data=rnd.choice([1100, 1100, 128, 64, 40, 32]), tasks=tasks,
                 schedule_seed=rnd.randint(1, 1 << 30), latency_us=sorted([rnd.randint(0, 500), rnd.randint(0, 500)]))
 
 
